@@ -158,4 +158,56 @@ theorem generated_newV2Session_live (C : Ops) (hlen : ∀ a k m, (C.hmac a k m).
     (by simp only [viewAnswers, hO, hR, Option.map_some, h1, h3, if_true]) hr4]
   rfl
 
+section typed
+open Bmc.GoOrch Bmc.Gen.Hs Bmc.Gen.Orch Bmc.Proofs.GenHs
+
+/-- the specification's BMC as the response STRUCTS of the code's own types (state: none). It echoes tags and the console's
+    session ID, confirms the proposed algorithm payloads, returns its session ID, random number, GUID and the RAKP 2 code over the
+    exchange; it answers a RAKP 3 ONLY when the code is the one it expects (otherwise the exchange fails). -/
+def typedO (b : Spec.BmcSide) : Unit → Gen.Hs.OpenSessionReq → Unit × Gen.Hs.OpenSessionRsp × Bool := fun _ q =>
+  ((), { tag := q.tag, status := 0, maxPrivilegeLevel := b.maxPriv, remoteConsoleSessionID := q.sessionID
+         managedSystemSessionID := UInt32.ofNat b.sidc, authenticationPayload := q.authenticationPayload
+         integrityPayload := q.integrityPayload, confidentialityPayload := q.confidentialityPayload }, true)
+def typedR1 (C : Ops) (h : HashAlg) (b : Spec.BmcSide) (o : Opts) (rm : Bytes) :
+    Unit → Gen.Hs.RAKPMessage1 → Unit × Gen.Hs.RAKPMessage2 × Bool := fun _ q =>
+  ((), { tag := q.tag, status := 0, remoteConsoleSessionID := 1, managedSystemRandom := b.rc, managedSystemGUID := b.guid
+         authCode := Spec.rakp2Code C h b.kuid (b.exchange (received o rm)) }, true)
+def typedR3 (C : Ops) (h : HashAlg) (b : Spec.BmcSide) (o : Opts) (rm : Bytes) :
+    Unit → Gen.Hs.RAKPMessage3 → Unit × Gen.Hs.RAKPMessage4 × Bool := fun _ q =>
+  if q.authCode = b.expectedRakp3 C h (received o rm) then
+    ((), { tag := q.tag, status := 0, remoteConsoleSessionID := 1
+           icv := Spec.icv C h (b.sik C h (received o rm)) (b.exchange (received o rm)) }, true)
+  else ((), {}, false)
+
+/-- **C01 against the specification's BMC, no hypothesis about intermediate states left**: for every caller options whose proposed
+    suite (as determined by the translated discovery) is supported, every 16-byte draw, every well-formed BMC holding the caller's
+    password and K_G — `newV2Session` AS TRANSLATED ON THIS RUN returns the session whose SIK, K1, K2 are the BMC's own. In
+    particular the RAKP 3 code the translated code sends IS the one the BMC expects (it would not answer otherwise). -/
+theorem generated_newV2Session_against_spec_bmc (C : Ops) (hlen : ∀ a k m, (C.hmac a k m).length = a.size) (fuel : Nat)
+    (sendS : Unit → GetChannelCipherSuitesReq → Unit × GetChannelCipherSuitesRsp × Bool) (tail : Bytes)
+    (opts : V2SessionOpts) (cs : Gen.Dec.CipherSuite) (draw : Bytes)
+    (hdet : bmc_V2SessionlessTransport_determineCipherSuite fuel sendS tail opts.cipherSuites () = (.ok cs, ()))
+    (b : Spec.BmcSide) (hb : b.wf) (h : HashAlg)
+    (hauth : authHash (optsOf opts cs).auth = some h)
+    (hinteg : (optsOf opts cs).integ = 1 ∨ (optsOf opts cs).integ = 2 ∨ (optsOf opts cs).integ = 4)
+    (hconf : (optsOf opts cs).conf = 1) (hpass : b.kuid = (optsOf opts cs).pass) (hkg : b.kg = (optsOf opts cs).kg) :
+    let o := optsOf opts cs
+    let rm := GoKeys.copyArr 16 (List.replicate 16 0) draw
+    (bmc_V2SessionlessTransport_newV2Session fuel sendS (typedO b) (typedR1 C h b o rm) (typedR3 C h b o rm) tail
+        (Bmc.Lemmas.GenKeys.mac C) (fun _ _ => ((), some draw)) opts ()).1 =
+      .ok (.ok (sessionOf 1 b.sidc o.auth o.integ o.conf (b.sik C h (received o rm)) (b.k1 C h (received o rm))
+        (b.k2 C h (received o rm)))) := by
+  intro o rm
+  have hsid : (UInt32.ofNat b.sidc).toNat = b.sidc := UInt32.toNat_ofNat_of_lt' hb.1
+  exact generated_newV2Session_live C hlen fuel sendS (typedO b) (typedR1 C h b o rm) (typedR3 C h b o rm) tail
+    (fun _ _ => ((), some draw)) opts () () cs hdet b h hauth hinteg hconf hpass hkg () () () () _ draw _
+    { tag := 0, status := 0, remoteConsoleSessionID := 1
+      icv := Spec.icv C h (b.sik C h (received o rm)) (b.exchange (received o rm)) }
+    rfl ⟨rfl, rfl, rfl, hsid, rfl, rfl, rfl⟩ rfl rfl ⟨rfl, rfl, rfl, rfl, rfl, rfl⟩
+    (by show typedR3 C h b o rm () (goRakp3 ⟨0, b.sidc, b.expectedRakp3 C h (received o rm)⟩) = _
+        unfold typedR3 goRakp3
+        rw [if_pos rfl]) ⟨rfl, rfl, rfl⟩
+
+end typed
+
 end Bmc.Proofs.EndToEnd
